@@ -27,9 +27,9 @@ ASSUMPTIONS = c01.ASSUMPTIONS + [
 
 
 # ---------------------------------------------------------------- 3. header modes -> what reaches the file
-def header_modes(calls, ctor_flag):
+def header_modes(calls, ctor_flag, password="pw"):
     """calls: string over {'E','e','C','c'}: set_encrypted_header(True/False), set_encoded_header_mode(True/False)"""
-    r = ObResult(bounds="constructor header_encryption=%s, then setter calls %r, one member, close; sizes symbolic" % (ctor_flag, calls))
+    r = ObResult(bounds="password %r, constructor header_encryption=%s, then setter calls %r, one member, close; sizes symbolic" % (password, ctor_flag, calls))
     eng, st = c08.mk_engine()
     seen = {}
     base_prepare = eng.overrides[(AI, "Folder.prepare_coderinfo")]
@@ -45,7 +45,7 @@ def header_modes(calls, ctor_flag):
     def harness(e):
         seen.clear()
         st.pop("compressors", None)
-        z, fp = S.new_archive(e, header_mode="encoded", password="pw")
+        z, fp = S.new_archive(e, header_mode="encoded", password=password)
         z.attrs["header_encryption"] = ctor_flag
         for c in calls:
             if c in "Ee":
@@ -91,18 +91,18 @@ def header_modes(calls, ctor_flag):
         return c_
 
     decide(eng, harness, post, {"size": size}, r, describe=lambda o: "encoded=%s encrypted=%s" % (o["enc"], o["encr"]))
-    _cex(r, "header_modes", lambda w: dict(module="vf.props.c11", func="replay_header_modes", kwargs=dict(calls=calls, ctor_flag=ctor_flag)),
+    _cex(r, "header_modes", lambda w: dict(module="vf.props.c11", func="replay_header_modes", kwargs=dict(calls=calls, ctor_flag=ctor_flag, password=password)),
          signature=lambda w: {"obligation": "header_modes"})
     return r
 
 
-def replay_header_modes(calls, ctor_flag):
+def replay_header_modes(calls, ctor_flag, password="pw"):
     import io
 
     import py7zr
 
     buf = io.BytesIO()
-    z = py7zr.SevenZipFile(buf, "w", password="pw", header_encryption=ctor_flag)
+    z = py7zr.SevenZipFile(buf, "w", password=password, header_encryption=ctor_flag)
     for c in calls:
         if c in "Ee":
             z.set_encrypted_header(c == "E")
@@ -122,6 +122,14 @@ def replay_header_modes(calls, ctor_flag):
         elif c == "c":
             encoded, encrypted = False, False
     leaked = "secret-name.txt".encode("utf-16LE") in raw
+    try:
+        # with a password and default filters the payload must be encrypted: no delivery without the password
+        from py7zr.io import BytesIOFactory
+
+        py7zr.SevenZipFile(io.BytesIO(raw)).extractall(factory=BytesIOFactory(10 ** 6))
+        return True, "archive written with password %r is readable without any password" % (password,)
+    except Exception:  # noqa
+        pass
     if encrypted:
         try:
             py7zr.SevenZipFile(io.BytesIO(raw)).getnames()
@@ -168,10 +176,12 @@ def iv_plumbing():
         e.overrides[("py7zr.helpers", "_calculate_key2")] = lambda e_, pw, cycles, salt, digest: SBytes([7] * 32)
         c = e.new(e.cls(CP, "AESCompressor"), "pw")
         props = e.method(c, "encode_filter_properties")
-        return dict(props=props, rec=dict(rec), iv=c.attrs["iv"], cycles=c.attrs["cycles"])
+        first = dict(rec)
+        e.new(e.cls(CP, "AESCompressor"), "pw")   # a second compressor (another folder / header / archive) asks the RNG again
+        return dict(props=props, rec=first, iv=c.attrs["iv"], cycles=c.attrs["cycles"], calls_after_two=rec["rng_calls"])
 
     def post(o):
-        c = [o["rec"]["rng_calls"] == 1, o["rec"].get("rng_n") == 16]
+        c = [o["rec"]["rng_calls"] == 1, o["rec"].get("rng_n") == 16, o["calls_after_two"] == 2]
         iv_used = o["rec"].get("aes_iv")
         c.append(iv_used is not None and len(iv_used) == 16)
         if iv_used is None or len(iv_used) != 16:
@@ -264,6 +274,8 @@ def units(tier):
     for flag in (False, True):
         for sq in seqs:
             us.append(Unit("3.header_modes[ctor=%s,%s]" % (flag, sq or "-"), M, "header_modes", dict(calls=sq, ctor_flag=flag), 900))
+    for sq in ("", "E"):
+        us.append(Unit("3.header_modes[empty password,%s]" % (sq or "-"), M, "header_modes", dict(calls=sq, ctor_flag=False, password=""), 900))
     us.append(Unit("4.iv_plumbing", M, "iv_plumbing", {}, 600))
     for n in (1, 2, 3, 4):
         for at in range(n):
